@@ -20,8 +20,9 @@
 (***************************************************************************)
 EXTENDS Announce, Json
 
-VARIABLES l
-tvars == <<vars, l>>
+VARIABLES l,
+          tord, tfl      \* tier-level histories: member order of the Tier under test, position used by each running call
+tvars == <<vars, l, tord, tfl>>
 
 Trace == ndJsonDeserialize("trace.ndjson")
 Ev == Trace[l]
@@ -36,56 +37,58 @@ TraceInit ==
     /\ Trace[1].op = "Init"
     /\ cfg = CfgOf(Trace[1])
     /\ mon = MonInit(CfgOf(Trace[1])).mon /\ mt = MonInit(CfgOf(Trace[1])).mt /\ mk = MonInit(CfgOf(Trace[1])).mk
-    /\ Idle
+    /\ Idle /\ tord = <<>> /\ tfl = [s \in 1 .. 8 |-> -1]
     /\ TLCSet(1, 1)
 
 Step(v) ==
     /\ l' = l + 1 /\ viol' = v
     /\ IF v = "" THEN TRUE ELSE PrintT("@@VIOL " \o ToString(l) \o " " \o v)
     /\ UNCHANGED xvars
+TKeep == UNCHANGED <<tord, tfl>>
 
 TrReset ==
     /\ Ev.op = "Init"
     /\ cfg' = CfgOf(Ev)
     /\ mon' = MonInit(CfgOf(Ev)).mon /\ mt' = MonInit(CfgOf(Ev)).mt /\ mk' = MonInit(CfgOf(Ev)).mk
+    /\ tord' = <<>> /\ tfl' = [s \in 1 .. 8 |-> -1]
     /\ Step("")
 
 \* every timed line first settles the deadlines that have passed (each is reported once)
-Due == DueViol(mon, Ev.now)
+Due == Join(<<DueViol(mon, Ev.now), RDueViol(mon, Ev.now)>>)
 M0  == ClearDue(mon, Ev.now)
 
 TrStart ==
     /\ Ev.op = "start" /\ Ev.t \in T /\ ~mt[Ev.t].run
     /\ mon' = StartF(M0, Ev.t, Ev.now) /\ mt' = StartT(mt, Ev.t)
-    /\ UNCHANGED <<cfg, mk>> /\ Step(Due)
+    /\ UNCHANGED <<cfg, mk>> /\ Step(Due) /\ TKeep
 
 TrStop ==
     /\ Ev.op = "stop" /\ Ev.t \in T /\ mt[Ev.t].run
     /\ mon' = StopF(M0, Ev.t, Ev.now) /\ mt' = StopT(mt, Ev.t)
-    /\ UNCHANGED <<cfg, mk>> /\ Step(Due)
+    /\ UNCHANGED <<cfg, mk>> /\ Step(Due) /\ TKeep
 
 TrComplete ==
     /\ Ev.op = "complete" /\ Ev.t \in T
     /\ mon' = EventF(M0, Ev.t) /\ mt' = CompleteT(mt, Ev.t)
-    /\ UNCHANGED <<cfg, mk>> /\ Step(Due)
+    /\ UNCHANGED <<cfg, mk>> /\ Step(Due) /\ TKeep
 
 TrNeed ==                                          \* Torrent.Announce(): not an event in the sense of C15.gap
     /\ Ev.op = "need" /\ Ev.t \in T
-    /\ mon' = M0 /\ UNCHANGED <<cfg, mt, mk>> /\ Step(Due)
+    /\ mon' = M0 /\ UNCHANGED <<cfg, mt, mk>> /\ Step(Due) /\ TKeep
 
 TrStats ==                                         \* counters read by the driver at a quiescent point before stop
     /\ Ev.op = "stats" /\ Ev.t \in T
     /\ mt' = [mt EXCEPT ![Ev.t] = [@ EXCEPT !.exp = TRUE, !.eup = Ev.up, !.edown = Ev.down, !.eleft = Ev.left]]
-    /\ mon' = M0 /\ UNCHANGED <<cfg, mk>> /\ Step(Due)
+    /\ mon' = M0 /\ UNCHANGED <<cfg, mk>> /\ Step(Due) /\ TKeep
 
 TrUp ==
     /\ Ev.op = "up" /\ Ev.k \in K
     /\ mk' = [mk EXCEPT ![Ev.k] = Ev.v] /\ mon' = UpF(M0, Ev.k)
-    /\ UNCHANGED <<cfg, mt>> /\ Step(Due)
+    /\ UNCHANGED <<cfg, mt>> /\ Step(Due) /\ TKeep
 
 TrTick ==
     /\ Ev.op \in {"tick", "end", "note"}
-    /\ mon' = M0 /\ UNCHANGED <<cfg, mt, mk>> /\ Step(Due)
+    /\ mon' = M0 /\ UNCHANGED <<cfg, mt, mk>> /\ Step(Due) /\ TKeep
 
 \* the completion of this run may be logged by the driver slightly after the tracker saw "completed"
 Ahead(t) == \E j \in (l + 1) .. Min2(Len(Trace), l + 40) :
@@ -99,19 +102,46 @@ TrAnn ==
     /\ Ev.op = "ann" /\ Ev.k \in K
     /\ IF Ev.t \notin T \/ AnnFor(Ev.t, Ev.k) = {}
        THEN /\ mon' = M0 /\ UNCHANGED <<cfg, mt, mk>>
-            /\ Step(Join(<<Due, "C15.id.infohash">>))
+            /\ Step(Join(<<Due, "C15.id.infohash">>)) /\ TKeep
        ELSE LET t == Ev.t
                 a == CHOOSE x \in AnnFor(t, Ev.k) : TRUE
                 e == EOf(Ev)
                 gap == IF M0[a].lastat[Ev.k] >= 0 THEN Ev.now - M0[a].lastat[Ev.k] ELSE 0
             IN IF Ev.ev = "stopped"
-               THEN /\ mon' = M0 /\ UNCHANGED <<cfg, mt, mk>>
-                    /\ Step(Join(<<Due>> \o StoppedViol(M0, a, Ev.k, t, e)))
-               ELSE /\ mon' = ResUpd(AnnUpdF(M0, a, Ev.k, Ev.ev, Ev.now, gap), a, Ev.k, Ev.res, Ev.iv, Ev.miv, Ev.now, Ev.dur)
+               THEN /\ mon' = StoppedF(M0, a, Ev.k) /\ UNCHANGED <<cfg, mt, mk>>
+                    /\ Step(Join(<<Due>> \o StoppedViol(M0, a, Ev.k, t, e))) /\ TKeep
+               ELSE /\ mon' = LET M1 == ResUpd(AnnUpdF(M0, a, Ev.k, Ev.ev, Ev.now, gap), a, Ev.k, Ev.res, Ev.iv, Ev.miv, Ev.now, Ev.dur)
+                              IN \* "rtx": the tracker ignores this datagram and waits for its retransmission (BEP 15: 15 s)
+                                 IF Ev.res = "never" /\ Ev.kind = "rtx" THEN RDueSet(M1, a, Ev.now + 15000 + cfg.lat + cfg.slk) ELSE M1
                     /\ mt' = mt
                     /\ mk' = [mk EXCEPT ![Ev.k] = Ev.nxt]
                     /\ UNCHANGED cfg
-                    /\ Step(Join(<<Due>> \o AnnViol(M0, a, Ev.k, t, e, Ev.now, gap, mt[t].cinrun \/ Ahead(t))))
+                    /\ Step(Join(<<Due>> \o AnnViol(M0, a, Ev.k, t, e, Ev.now, gap, mt[t].cinrun \/ Ahead(t)))) /\ TKeep
+
+\* a datagram whose (connection id, action, transaction id) was seen before arrived at UDP tracker k
+TrRtx ==
+    /\ Ev.op = "rtx" /\ Ev.k \in K
+    /\ IF Ev.t \in T /\ AnnFor(Ev.t, Ev.k) # {}
+       THEN LET a == CHOOSE x \in AnnFor(Ev.t, Ev.k) : TRUE IN
+            mon' = IF Ev.answered THEN ResUpd(RDueSet(M0, a, -1), a, Ev.k, Ev.res, Ev.iv, Ev.miv, Ev.now, Ev.dur) ELSE M0
+       ELSE mon' = M0
+    /\ UNCHANGED <<cfg, mt, mk>>
+    /\ Step(Join(<<Due>> \o RtxViol(Ev.same, Ev.late))) /\ TKeep
+
+\* tier-level histories (harness/c16, real tracker.Tier, rendezvous inside the scripted members): every line is one atomic
+\* step of the Tier - "tl": the call in lane `slot` has loaded the index and reached member k; "tr": that call returned
+TrTNew ==
+    /\ Ev.op = "tnew"
+    /\ tord' = Ev.ks /\ tfl' = [s \in 1 .. 8 |-> -1]
+    /\ mon' = TNewF(mon, 1) /\ UNCHANGED <<cfg, mt, mk>> /\ Step("")
+TrTL ==
+    /\ Ev.op = "tl" /\ Ev.slot \in 1 .. 8 /\ tfl[Ev.slot] = -1 /\ Ev.k \in SeqSet(tord)
+    /\ mon' = TLoadF(mon, 1, tord, Ev.k) /\ tfl' = [tfl EXCEPT ![Ev.slot] = PosIn(tord, Ev.k)] /\ tord' = tord
+    /\ UNCHANGED <<cfg, mt, mk>> /\ Step(TLoadViol(mon[1], tord, Ev.k))
+TrTR ==
+    /\ Ev.op = "tr" /\ Ev.slot \in 1 .. 8 /\ tfl[Ev.slot] # -1
+    /\ mon' = TRetF(mon, 1, tord, tfl[Ev.slot], Ev.ok) /\ tfl' = [tfl EXCEPT ![Ev.slot] = -1] /\ tord' = tord
+    /\ UNCHANGED <<cfg, mt, mk>> /\ Step("")
 
 \* (an IPv6 literal in a dictionary-model reply is a well-formed address: counted by the check, not judged)
 \* @obligation C16.reply.*  any reply bytes yield an error or well-formed peer addresses: never a crash or hang,
@@ -122,16 +152,18 @@ FzViol(e) ==
     ELSE IF e.out = "ok" /\ e.nilip > 0 THEN "C16.reply.peer.nilip"
     ELSE IF e.out = "ok" /\ e.badtx THEN "C16.reply.txid"
     ELSE IF e.over THEN "C16.reply.limit"
+    ELSE IF e.mix THEN "C16.reply.mixup"        \* a reply was delivered to (or parsed for) another announce than the one it answers
+    ELSE IF e.lost THEN "C16.reply.lost"        \* an announce whose reply was sent ended without it
     ELSE IF e.out = "ok" /\ e.mustfail THEN "C16.reply.accepted"
     ELSE ""
 
 TrFz ==
     /\ Ev.op = "fz"
-    /\ UNCHANGED <<cfg, mon, mt, mk>> /\ Step(FzViol(Ev))
+    /\ UNCHANGED <<cfg, mon, mt, mk>> /\ Step(FzViol(Ev)) /\ TKeep
 
 TraceNext ==
     /\ l <= Len(Trace)
-    /\ \/ TrReset \/ TrStart \/ TrStop \/ TrComplete \/ TrNeed \/ TrStats \/ TrUp \/ TrTick \/ TrAnn \/ TrFz
+    /\ \/ TrReset \/ TrStart \/ TrStop \/ TrComplete \/ TrNeed \/ TrStats \/ TrUp \/ TrTick \/ TrAnn \/ TrFz \/ TrRtx \/ TrTNew \/ TrTL \/ TrTR
 
 TraceSpec == TraceInit /\ [][TraceNext]_tvars
 
